@@ -20,7 +20,10 @@ def space(tier, seed):
     F = lambda t, i, *st: ('f', t, i) + tuple(st)
     common = [F('a', 1), F('a', 2, 'a[N]'), F('a', 5), ('NR',), ('NF',), ('cat', F('a', 1), ('lit', 'x')), ('lit', 'x,[y]"z('),
               ('call', 'max', F('a', 1), ('lit', 'x,y')), ('list', F('a', 1), ('tuple', F('a', 2), F('a', 1))), ('star', None), ('star', 'a'),
-              ('alias', ('cat', F('a', 1), ('lit', 'y')), 'Tot', 'AS'), ('alias', F('a', 2), 'low_1', 'as'), ('tuple', F('a', 1), F('a', 2))]
+              ('alias', ('cat', F('a', 1), ('lit', 'y')), 'Tot', 'AS'), ('alias', F('a', 2), 'low_1', 'as'), ('tuple', F('a', 1), F('a', 2)),
+              # aliases on expressions whose syntax tree root is a boolean operator, a negation or a conditional
+              ('alias', ('or', ('cmp', '==', F('a', 1), ('lit', k)), ('cmp', '==', F('a', 2), ('lit', k))), 'either', 'AS'), ('alias', ('not', ('cmp', '==', F('a', 1), ('lit', k))), 'neg', 'as'),
+              ('alias', ('ifelse', ('cmp', '==', F('a', 1), ('lit', k)), F('a', 2), ('lit', 'other')), 'pick', 'AS')]
     named = [('named', 'a', n1, 'attr'), ('named', 'a', n2, 'dq'), ('named', 'a', n3, 'sq')]
     joined = [F('b', 1), F('b', 3), F('b', 5), ('star', 'b'), ('bNR',)]     # b3: inside the narrow B? no - beyond it; inside the wide B; b5: beyond A, inside wide B
     joined_named = [('named', 'b', bn2, 'attr')]
